@@ -205,7 +205,12 @@ fn new_line_state(
     let (prefix_char, prefix, in_merge_conflict) = match diff_type.clone() {
         Unified => (new_line.chars().next(), None, None),
         Combined(Number(n_parents), in_merge_conflict) => {
-            let prefix = &new_line[..min(n_parents, new_line.len())];
+            // (the prefix columns are ASCII in a real combined diff; never cut a character in two)
+            let mut prefix_len = min(n_parents, new_line.len());
+            while !new_line.is_char_boundary(prefix_len) {
+                prefix_len -= 1;
+            }
+            let prefix = &new_line[..prefix_len];
             let prefix_char = match prefix.chars().find(|c| c == &'-' || c == &'+') {
                 Some(c) => Some(c),
                 None => match prefix.chars().find(|c| c != &' ') {
